@@ -124,8 +124,43 @@ func (p *probe04) Exec(ctx context.Context, qCtx *query_context.Context, next se
 	return err
 }
 
-// up04 answers every question with a fresh, numbered answer.
-type up04 struct{ o *obs04 }
+// up04 answers every question with a fresh, numbered answer. Negative answers
+// (neg 1: NXDOMAIN for every name, 2: NODATA for every name, 3: NXDOMAIN, NODATA
+// or a positive answer depending on the name) carry the number in the serial of
+// an SOA record in the authority section, so that a negative answer that is
+// served from a cache can be traced to the question it was produced for, too.
+type up04 struct {
+	o   *obs04
+	neg int
+}
+
+// negKind04: 0 positive answer, 1 NXDOMAIN, 2 NODATA.
+func (u *up04) negKind04(name string) int {
+	switch u.neg {
+	case 1, 2:
+		return u.neg
+	case 3:
+		h := 0
+		for i := 0; i < len(name); i++ {
+			h += int(name[i] | 0x20)
+		}
+		return h % 3
+	}
+	return 0
+}
+
+func negDesc04(neg int) string {
+	return []string{"a positive answer to every question", "NXDOMAIN (+SOA) to every question", "NODATA (+SOA) to every question",
+		"NXDOMAIN, NODATA or a positive answer, depending on the name"}[neg]
+}
+
+// pickNeg04 draws the kind of upstream of a seeded sequence.
+func pickNeg04(r *Run) int {
+	if r.Rng.Intn(3) != 0 {
+		return 0
+	}
+	return 1 + r.Rng.Intn(3)
+}
 
 func (u *up04) Exec(_ context.Context, qCtx *query_context.Context) error {
 	if qCtx.R() != nil {
@@ -140,6 +175,15 @@ func (u *up04) Exec(_ context.Context, qCtx *query_context.Context) error {
 	m := new(dns.Msg)
 	m.SetReply(q)
 	name := q.Question[0].Name
+	if k := u.negKind04(name); k != 0 {
+		if k == 1 {
+			m.Rcode = dns.RcodeNameError
+		}
+		m.Ns = append(m.Ns, &dns.SOA{Hdr: dns.RR_Header{Name: "chain.test.", Rrtype: dns.TypeSOA, Class: dns.ClassINET, Ttl: 3600},
+			Ns: "ns.chain.test.", Mbox: "c04-serial.chain.test.", Serial: uint32(s), Refresh: 3600, Retry: 600, Expire: 86400, Minttl: 3600})
+		qCtx.SetResponse(m)
+		return nil
+	}
 	switch q.Question[0].Qtype {
 	case dns.TypeA:
 		m.Answer = append(m.Answer, &dns.A{Hdr: dns.RR_Header{Name: name, Rrtype: dns.TypeA, Class: dns.ClassINET, Ttl: 3600}, A: net.IPv4(10, byte(s>>16), byte(s>>8), byte(s))})
@@ -172,6 +216,11 @@ func serial04(r *dns.Msg) int {
 				n, _ := strconv.Atoi(strings.TrimPrefix(x.Txt[0], "c04-serial="))
 				return n
 			}
+		}
+	}
+	for _, rr := range r.Ns {
+		if x, ok := rr.(*dns.SOA); ok && x.Mbox == "c04-serial.chain.test." {
+			return int(x.Serial)
 		}
 	}
 	return 0
@@ -253,6 +302,7 @@ type chain04 struct {
 	closers []func()
 	names   []string
 	types   []uint16
+	neg     int // kind of upstream (up04.neg)
 }
 
 func buildChain04(r *Run, o *obs04) (*chain04, error) {
@@ -261,7 +311,9 @@ func buildChain04(r *Run, o *obs04) (*chain04, error) {
 	bq := sequence.NewBQ(m, m.Logger())
 	ch := &chain04{names: []string{"h0.chain.test.", "h1.chain.test.", "t.chain.test."}}
 	ch.types = []uint16{dns.TypeA, dns.TypeAAAA, dns.TypeA, dns.TypeAAAA, dns.TypeTXT, 257, r.U16()}
-	plugins["up"] = &up04{o: o}
+	up := &up04{o: o, neg: pickNeg04(r)}
+	plugins["up"] = up
+	ch.neg = up.neg
 
 	nCache := 2
 	if r.Rng.Intn(4) == 0 {
@@ -390,6 +442,7 @@ func runChain04(r *Run, i int) {
 		return
 	}
 	r.Count(fmt.Sprintf("chain:caches=%d", len(ch.entries)))
+	r.Count(fmt.Sprintf("chain:upstream-kind=%d", ch.neg))
 	for _, kind := range []string{"prefer_ipv", "redirect(", "rewrite(type", "rewrite(name", "rewrite(class", "rewrite(ad", "rewrite(cd", "rewrite(do", "jump{", "goto{"} {
 		if strings.Contains(ch.desc[0], kind) {
 			r.Count("chain-has:" + strings.TrimRight(kind, "({"))
@@ -466,8 +519,9 @@ func runChain04(r *Run, i int) {
 		for _, f := range fails {
 			f["chain"] = ch.desc[0]
 			f["chain_entries"] = ch.desc
+			f["upstream_answers"] = negDesc04(ch.neg)
 			f["queries_in_order"] = append([]string{}, history...)
-			r.Fail("in a chain with several cache plugins, a cache plugin served an answer to a question for which it had not stored that answer (the question was changed between two cache plugins while the query context, or a copy of it, stayed the same)", f)
+			r.Fail("in a chain with several cache plugins, a cache plugin served an answer to a question for which it had not stored that answer (the question was changed between two cache plugins while the query context, or a copy of it, stayed the same; or an answer - positive, NXDOMAIN or NODATA - stored for one question was found under another question's key)", f)
 			reported = true
 			break
 		}
